@@ -22,11 +22,11 @@ def gen_series(repo):
     m = X._one(r'kAttributesLimitOverflowValue\s*=\s*(true|false)\s*;', hm, 'kAttributesLimitOverflowValue')
     out.append(f'def kAttributesLimitOverflowValue : Bool := {m.group(1)}\n')
     if not re.search(r'IsOverflowAttributes\(\)\s*const\s*\{\s*return\s*\(?\s*hash_map_\.size\(\)\s*\+\s*1\s*>=\s*attributes_limit_\s*\)?\s*;', hm):
-        raise X.ExtractError('IsOverflowAttributes is no longer `hash_map_.size() + 1 >= attributes_limit_`')
+        raise X.ShapeChanged('IsOverflowAttributes is no longer `hash_map_.size() + 1 >= attributes_limit_`')
     # allow-list lookup: by value (std::string(key) / key) or through key.data() as a C string (D11)
     finds = re.findall(r'allowed_attribute_keys_\.find\(\s*([^)]*\)?)\s*\)', ap)
     if not finds:
-        raise X.ExtractError('FilteringAttributesProcessor: allow-list lookup not found')
+        raise X.ShapeChanged('FilteringAttributesProcessor: allow-list lookup not found')
     by_value = all('.data()' not in f for f in finds)
     out.append('/-- the allow-list is searched with the key\'s own bytes (not with `key.data()` read as a C string) -/\n'
                f'def filterLooksUpByValue : Bool := {"true" if by_value else "false"}\n')
